@@ -59,6 +59,15 @@ class Check:
             k for k in json.load(open(os.path.join(VERIF, "known_findings.json")))["findings"] if k["property"] == pid
         ]
         self._printed_known: set[str] = set()
+        self.lines: list[str] = []
+        self.quiet = False
+        self.replay_prefix = ""
+
+    def _emit(self, line: str) -> None:
+        if self.quiet:
+            self.lines.append(line)
+        else:
+            print(line, flush=True)
 
     # ------------------------------------------------------------------ counting
     def obligation(self, group: str, status: str, n: int = 1) -> None:
@@ -78,17 +87,17 @@ class Check:
     def inconclusive_note(self, what: str) -> None:
         if len(self.inconclusive) < 200:
             self.inconclusive.append(what)
-        print(f"INCONCLUSIVE property={self.pid} {what}", flush=True)
+        self._emit(f"INCONCLUSIVE property={self.pid} {what}")
 
     def nonreproducing(self, what: str) -> None:
         """A solver counterexample that the native replay did not confirm: never a VIOLATION; harness error unless
         another counterexample of this run did reproduce (then the run already fails with exit 1)."""
         self.nonrepro.append(what)
-        print(f"NON-REPRODUCING property={self.pid} {what}", flush=True)
+        self._emit(f"NON-REPRODUCING property={self.pid} {what}")
 
     def harness_error(self, what: str) -> None:
         self.harness_errors.append(what)
-        print(f"HARNESS-ERROR property={self.pid} {what}", flush=True)
+        self._emit(f"HARNESS-ERROR property={self.pid} {what}")
 
     # ------------------------------------------------------------------ violations
     def violation(self, key: str, what: str, payload: dict) -> None:
@@ -96,19 +105,76 @@ class Check:
             if k.get("status") == "open" and k["key"] == key:
                 if key not in self._printed_known:
                     self._printed_known.add(key)
-                    print(f"KNOWN-FINDING: property={self.pid} {k['what']} [{key}]", flush=True)
+                    self._emit(f"KNOWN-FINDING: property={self.pid} {k['what']} [{key}]")
                     self.known_hits.append({"key": key, "what": k["what"]})
                 return
         if any(v["key"] == key for v in self.violations):
             return
         d = os.path.join(VERIF, "replays", self.pid)
         os.makedirs(d, exist_ok=True)
-        path = os.path.join(d, f"{len(self.violations):03d}.json")
+        path = os.path.join(d, f"{self.replay_prefix}{len(self.violations):03d}.json")
         with open(path, "w") as f:
             json.dump({"property": self.pid, "key": key, "what": what, "payload": jsonable(payload)}, f, indent=1)
         self.violations.append({"key": key, "what": what, "replay": path})
-        print(f"VIOLATION property={self.pid} replay={path}", flush=True)
-        print(f"  key={key} :: {what}", flush=True)
+        self._emit(f"VIOLATION property={self.pid} replay={path}")
+        self._emit(f"  key={key} :: {what}")
+
+    # ------------------------------------------------------------------ parallel workers
+    def export(self) -> dict:
+        from sr import symreal
+
+        return {
+            "groups": self.groups, "samples": self.samples, "violations": self.violations, "known_hits": self.known_hits,
+            "inconclusive": self.inconclusive, "functions": sorted(self.functions), "stubs": sorted(self.stubs),
+            "cases": sorted(self.cases), "evaluations": self.evaluations, "harness_errors": self.harness_errors,
+            "nonrepro": self.nonrepro, "lines": self.lines, "stats": dict(symreal.STATS), "info": jsonable(self.info),
+        }
+
+    def merge(self, d: dict) -> None:
+        from sr import symreal
+
+        for g, st in d["groups"].items():
+            for k, v in st.items():
+                self.obligation(g, k, v)
+        for smp in d["samples"]:
+            self.sample(smp)
+        seen_v = {v["key"] for v in self.violations}
+        for v in d["violations"]:
+            if v["key"] not in seen_v:
+                self.violations.append(v)
+                seen_v.add(v["key"])
+        for k in d["known_hits"]:
+            if k["key"] not in {h["key"] for h in self.known_hits}:
+                self.known_hits.append(k)
+        self.inconclusive += d["inconclusive"]
+        self.functions.update(d["functions"])
+        self.stubs.update(d["stubs"])
+        self.cases.update(d["cases"])
+        self.evaluations += d["evaluations"]
+        self.harness_errors += d["harness_errors"]
+        self.nonrepro += d["nonrepro"]
+        for k, v in d["stats"].items():
+            symreal.STATS[k] = symreal.STATS.get(k, 0) + v
+        for k, v in d["info"].items():
+            if isinstance(v, dict) and isinstance(self.info.get(k), dict) and all(isinstance(x, int) for x in v.values()):
+                for kk, vv in v.items():
+                    self.info[k][kk] = self.info[k].get(kk, 0) + vv
+            elif k not in self.info:
+                self.info[k] = v
+        printed = getattr(self, "_printed_lines", set())
+        skip_next = False
+        for line in d["lines"]:
+            if line.startswith("  key=") and skip_next:
+                continue
+            skip_next = False
+            if line.startswith(("KNOWN-FINDING", "VIOLATION")):
+                tag = line if line.startswith("KNOWN") else None
+                if tag and tag in printed:
+                    continue
+                if tag:
+                    printed.add(tag)
+            print(line, flush=True)
+        self._printed_lines = printed
 
     # ------------------------------------------------------------------ finish
     def finish(self) -> int:
